@@ -251,6 +251,11 @@ func EscapeIdent(s string) string {
 			extra += 2
 		}
 	}
+	if !replace && len(s) > 0 && strings.IndexByte(decimal, s[0]) != -1 && strings.Trim(s, decimal) != "" {
+		// An identifier that starts with a digit but is not a number (e.g. `1abc`)
+		// is lexed as an unnamed ID followed by garbage; it is only valid quoted.
+		replace = true
+	}
 	if !replace {
 		return s
 	}
